@@ -36,7 +36,7 @@ fn info(tier: Tier) -> CheckInfo {
         ),
         assumptions: vec!["in the tie case either address may win (map iteration order): both outcomes are accepted".into()],
     };
-    ci.rule.push_str(" Added: the public Info accessors must equal the node's state; every adaptive / public_ip timeline again with the application calling bootstrapped() at minutes 10 and 24.");
+    ci.rule.push_str(" Added: the public Info accessors must equal the node's state; every adaptive / public_ip timeline again with the application calling bootstrapped() at minutes 10 and 24. Also: a lone bootstrap server with an empty table as the node's only voter; without message loss the switch to server mode is due at the first refresh; the same timelines with a request filter that also vetoes the node's own public IP (the confirming self-ping is not a remote request).");
     ci
 }
 
@@ -369,6 +369,10 @@ thread_local! {
     /// The application on the observed node calls `bootstrapped()` (a lookup of its own id) at
     /// minutes 10 and 24 of the timeline.
     static APP_CALLS: std::cell::Cell<bool> = const { std::cell::Cell::new(false) };
+    /// The configured request filter also vetoes the node's own public IP (a user who drops
+    /// requests that claim to come from the node itself): the confirming self-ping is the
+    /// node's own mechanism, not a remote request, and is not subject to the filter.
+    static VETO_OWN_IP: std::cell::Cell<bool> = const { std::cell::Cell::new(false) };
 }
 
 struct DOut {
@@ -425,7 +429,11 @@ fn part_d(chooser: Chooser, nat: usize, votes: usize, conf: usize, faults: bool,
     // server later must consult the filter it was configured with
     let vetoed = SocketAddrV4::new(Ipv4Addr::new(66, 66, 66, 66), 6000);
     let allowed = SocketAddrV4::new(Ipv4Addr::new(67, 1, 1, 1), 6000);
-    cfg.server_settings = Some(dht::ServerSettings { filter: Box::new(crate::srv::VetoFilter { ip: *vetoed.ip() }), ..Default::default() });
+    cfg.server_settings = if VETO_OWN_IP.with(|c| c.get()) {
+        Some(dht::ServerSettings { filter: Box::new(crate::srv::VetoIps { ips: vec![*vetoed.ip(), ip] }), ..Default::default() })
+    } else {
+        Some(dht::ServerSettings { filter: Box::new(crate::srv::VetoFilter { ip: *vetoed.ip() }), ..Default::default() })
+    };
     let vetoed_ep = w.add_endpoint(vetoed);
     let allowed_ep = w.add_endpoint(allowed);
     let mut filter_probe_sent = false;
@@ -728,6 +736,18 @@ fn run(tier: Tier, shard: usize, nshards: usize, _seed: u64) -> Partial {
                         out.violation(format!("{k}/with-own-id-lookups"), format!("[bootstrapped() called at minutes 10 and 24] {d}"), json!({"part": "d", "nat": nat, "votes": votes, "conf": conf, "choices": [], "app_calls": true}));
                     }
                 }
+                if conf != 1 && (votes == 0 || votes == 5) {
+                    // the same timeline with a request filter that also vetoes the node's own IP
+                    VETO_OWN_IP.with(|c| c.set(true));
+                    let (_, o) = part_d(Chooser::default_run(), nat, votes, conf, false, false);
+                    VETO_OWN_IP.with(|c| c.set(false));
+                    out.add("executions", 1);
+                    out.add("timelines_with_own_ip_vetoed", 1);
+                    out.add("transitions", o.steps);
+                    for (k, d) in o.problems {
+                        out.violation(format!("{k}/filter-vetoes-own-ip"), format!("[the configured request filter also vetoes the node's own public IP] {d}"), json!({"part": "d", "nat": nat, "votes": votes, "conf": conf, "choices": [], "veto_own_ip": true}));
+                    }
+                }
                 if !tier.is_quick() && conf == 0 {
                     let mut ex = crate::explore::Explorer::new(1, (0, 1));
                     ex.explore(&mut |chooser, _| {
@@ -770,10 +790,13 @@ fn replay(v: &Value) -> Result<Option<Violation>, String> {
             let g = |k: &str| v.get(k).and_then(|x| x.as_u64()).map(|x| x as usize);
             let app = v.get("app_calls").and_then(|x| x.as_bool()).unwrap_or(false);
             APP_CALLS.with(|c| c.set(app));
+            let veto = v.get("veto_own_ip").and_then(|x| x.as_bool()).unwrap_or(false);
+            VETO_OWN_IP.with(|c| c.set(veto));
             let (_, o) = part_d(Chooser::new(choices.clone()), g("nat").ok_or("nat")?, g("votes").ok_or("votes")?, g("conf").ok_or("conf")?, !choices.is_empty(), false);
             APP_CALLS.with(|c| c.set(false));
+            VETO_OWN_IP.with(|c| c.set(false));
             for (k, d) in o.problems {
-                out.violation(if app { format!("{k}/with-own-id-lookups") } else { k }, d, v.clone());
+                out.violation(if app { format!("{k}/with-own-id-lookups") } else if veto { format!("{k}/filter-vetoes-own-ip") } else { k }, d, v.clone());
             }
         }
         _ => return Err("part".into()),
